@@ -115,7 +115,8 @@ def regions(fn: ast.FunctionDef | ast.AsyncFunctionDef, max_paths: int = 4096) -
                     seen[id(e.orig)].headers.append(e.node)
                     continue
                 loop = e.orig
-                sub = Region("loop", loop, [e.node], _Sym(max_paths).block(Path(), list(loop.body)), r)  # type: ignore[attr-defined]
+                body = list(loop.body)  # type: ignore[attr-defined]
+                sub = Region("loop", loop, [e.node], _Sym(max_paths).block(Path(), body), r)
                 seen[id(loop)] = sub
                 out.append(sub)
                 if getattr(loop, "orelse", None):
